@@ -34,7 +34,16 @@ type c12env struct {
 	masked   []int
 }
 
-var clockOffsets = []time.Duration{0, 1, 24 * time.Hour, -time.Hour, 365 * 24 * time.Hour}
+// offsets from the simulated base clock 2026-01-02T03:04:05.000000006Z: a tick, a day, a jump back, a year, and
+// the instants just before a minute / hour / day / month / year rolls over
+var clockOffsets = []time.Duration{0, 1, 24 * time.Hour, -time.Hour, 365 * 24 * time.Hour,
+	54*time.Second + 999*time.Millisecond,                                 // 03:04:59.999
+	55*time.Minute + 54*time.Second + 999*time.Millisecond,                // 03:59:59.999
+	20*time.Hour + 55*time.Minute + 54*time.Second + 999*time.Millisecond, // 23:59:59.999
+	(29*24+20)*time.Hour + 55*time.Minute + 54*time.Second + 999*time.Millisecond,  // Jan 31 23:59:59.999
+	(363*24+20)*time.Hour + 55*time.Minute + 54*time.Second + 999*time.Millisecond, // Dec 31 23:59:59.999
+	-(2*24 + 3) * time.Hour,                                               // previous year
+}
 var historyNames = []string{"fresh", "repeat-in-process", "after-other-spec", "separate-process"}
 
 func newC12(job *Job, res *Result) *c12env {
@@ -110,6 +119,7 @@ type c12outcome struct {
 	toff     time.Duration
 	ambient  int
 	late     bool
+	stall    bool // timers set by the generator have already expired when consulted
 	dirstate int // 0 empty out dir, 1 user Go files of the same package already there, 2 stale output of another invocation there
 	events   []string
 	skipped  string
@@ -142,6 +152,7 @@ func (e *c12env) execC12(inv gencore.Invocation, other *gencore.Invocation, t *t
 	o.toff = clockOffsets[t.Choose(len(clockOffsets), "clock")]
 	o.ambient = t.Choose(3, "ambient")
 	o.dirstate = t.Choose(3, "outdir-state")
+	o.stall = t.Choose(4, "stalled-process") == 1
 	verifhook.Masked = map[int]bool{}
 	for _, m := range e.masked {
 		verifhook.Masked[m] = true
@@ -181,7 +192,7 @@ func (e *c12env) execC12(inv gencore.Invocation, other *gencore.Invocation, t *t
 		for i := range vals {
 			vals[i] = uint32(t.Choose(5040, "cli-order"))
 		}
-		r = gencore.RunCLI(e.job.CLI, inv, in, out, gencore.Sched{Active: active, ClockOffset: o.toff, FaultAt: -1, Ambient: o.ambient}, vals, e.masked, filepath.Join(filepath.Dir(in), "plan.json"))
+		r = gencore.RunCLI(e.job.CLI, inv, in, out, gencore.Sched{Active: active, ClockOffset: o.toff, FaultAt: -1, Ambient: o.ambient, Stall: o.stall}, vals, e.masked, filepath.Join(filepath.Dir(in), "plan.json"))
 		for _, v := range vals {
 			if v != 0 {
 				// attribution is not available from the child; deviated stays empty unless the log says so
@@ -189,7 +200,7 @@ func (e *c12env) execC12(inv gencore.Invocation, other *gencore.Invocation, t *t
 			}
 		}
 	} else {
-		r = gencore.RunInProcess(inv, in, out, gencore.Sched{Tape: t, Active: active, ClockOffset: o.toff, FaultAt: -1, Ambient: o.ambient}, e.root)
+		r = gencore.RunInProcess(inv, in, out, gencore.Sched{Tape: t, Active: active, ClockOffset: o.toff, FaultAt: -1, Ambient: o.ambient, Stall: o.stall}, e.root)
 	}
 	o.deviated = r.Deviated
 	o.events = r.Events
@@ -253,6 +264,9 @@ func (e *c12env) keyOf(o c12outcome) string {
 	if o.ambient != 0 {
 		return "ambient:pid-hostname-env"
 	}
+	if o.stall {
+		return "timer:fires-first-in-a-stalled-process"
+	}
 	if o.h != 0 {
 		return historyNames[o.h]
 	}
@@ -301,9 +315,9 @@ func runC12(job *Job, res *Result) {
 		if len(o.deviated) > 0 {
 			res.Counters["runs_with_deviating_order"]++
 		}
-		nontrivial := len(o.deviated) > 0 || o.h != 0 || o.toff != 0 || o.ambient != 0 || o.dirstate != 0
+		nontrivial := len(o.deviated) > 0 || o.h != 0 || o.toff != 0 || o.ambient != 0 || o.dirstate != 0 || o.stall
 		if nontrivial && o.skipped == "" {
-			e.distinct[hash64(inv.Hash(), fmt.Sprint(o.deviated), strings.Join(o.events, "|"), fmt.Sprint(o.h, o.toff, o.ambient, o.dirstate))] = true
+			e.distinct[hash64(inv.Hash(), fmt.Sprint(o.deviated), strings.Join(o.events, "|"), fmt.Sprint(o.h, o.toff, o.ambient, o.dirstate, o.stall))] = true
 		}
 		e.logH = hash64(fmt.Sprint(e.logH), fmt.Sprint(run), fmt.Sprint(t.Rec), fmt.Sprint(o.violated, o.class, o.detail), strings.Join(o.events, "|"))
 		if len(res.Samples) < 3 && len(o.deviated) > 0 {
@@ -405,7 +419,7 @@ func (e *c12env) shrinkC12(run int, inv gencore.Invocation, other *gencore.Invoc
 	e.masked = masked
 	o2 := e.execC12(inv, other, tr)
 	e.masked = nil
-	trace = append(trace, fmt.Sprintf("history=%s clock_offset=%s ambient=%d outdir_state=%d", historyNames[o2.h], o2.toff, o2.ambient, o2.dirstate))
+	trace = append(trace, fmt.Sprintf("history=%s clock_offset=%s ambient=%d outdir_state=%d stalled=%v", historyNames[o2.h], o2.toff, o2.ambient, o2.dirstate, o2.stall))
 	trace = append(trace, o2.events...)
 	rp := Replay{Property: "C12", FindingKey: key, Seed: e.job.Seed, Run: run, Invocation: &inv, Tape: min, Masked: masked, Trace: trace,
 		Observed: o.class + ": " + o.detail, Expected: "byte-identical files to the sorted-order fresh run of the same invocation", SiteTable: e.job.Sites}
